@@ -25,6 +25,8 @@ pub enum PlanOp {
 	Batch(u32),
 	Subscribe,
 	Notif,
+	/// `subscribe_to_method` (no wire traffic; answered by the background task)
+	Handler,
 }
 
 #[derive(Debug, Clone, PartialEq)]
@@ -39,6 +41,7 @@ pub enum Outcome {
 	Batch(Result<Vec<Ans>, String>),
 	Sub(Result<Value, String>, Option<Ans>),
 	Notif(Result<(), String>),
+	Handler(Result<(), String>),
 }
 
 #[derive(Debug, Clone)]
@@ -278,6 +281,20 @@ pub async fn run_op(client: &Client, ti: usize, op: &PlanOp, nonce_ctr: &std::sy
 			};
 			return OpRec { nonces: vec![n], done_stamp: st, outcome };
 		}
+		PlanOp::Handler => {
+			let n = fresh();
+			rt::event("op-handler", format!("t{ti} nonce={n}"));
+			let r: Result<Subscription<Value>, Error> = client.subscribe_to_method(&format!("mn{n}")).await;
+			let st = rt::event("op-done", format!("t{ti} nonce={n} handler ok={} {:?}", r.is_ok(), r.as_ref().err()));
+			let outcome = match r {
+				Ok(s) => {
+					held.push(s);
+					Outcome::Handler(Ok(()))
+				}
+				Err(e) => Outcome::Handler(Err(format!("{e:?}"))),
+			};
+			return OpRec { nonces: vec![n], done_stamp: st, outcome };
+		}
 		PlanOp::Notif => {
 			let n = fresh();
 			let r = client.notification("note", rpc_params![n]).await;
@@ -301,7 +318,8 @@ pub async fn scenario() {
 			v.push(match rt::draw("op", 20) {
 				0..=11 => PlanOp::Call,
 				12..=15 => PlanOp::Batch(rt::draw_range("batch_n", 1, 4)),
-				16..=18 => PlanOp::Subscribe,
+				16..=17 => PlanOp::Subscribe,
+				18 => PlanOp::Handler,
 				_ => PlanOp::Notif,
 			});
 		}
@@ -416,9 +434,9 @@ fn check(wire: &Wire, ops: &[OpRec], peer: &PeerLog, hostile: bool) {
 					rt::violate(P, "lost", "friendly-run-failure", format!("op {:?} failed with {e} although the peer answered every id exactly once and no fault was injected", op.nonces));
 				}
 			}
-			Outcome::Notif(r) => {
+			Outcome::Notif(r) | Outcome::Handler(r) => {
 				if let (Err(e), true) = (r, clean) {
-					rt::violate(P, "lost", "friendly-notif-failure", format!("notification failed: {e}"));
+					rt::violate(P, "lost", "friendly-notif-failure", format!("notification / handler registration failed: {e}"));
 				}
 			}
 			_ => {}
